@@ -451,14 +451,18 @@ func (mr *msgReader) read(p []byte) (int, error) {
 		}
 
 		n, err := mr.c.readFramePayload(mr.ctx, p)
-		if err != nil {
-			return n, err
-		}
 
+		// Bytes read before an error are still returned to the caller
+		// and so must be accounted for and unmasked as well.
+		p = p[:n]
 		mr.payloadLength -= int64(n)
 
 		if !mr.c.client {
 			mr.maskKey = mask(p, mr.maskKey)
+		}
+
+		if err != nil {
+			return n, err
 		}
 
 		return n, nil
